@@ -71,7 +71,9 @@ def person_unname(p):
 
 RENAMINGS = {'reversed': (rev_name, rev_unname),
              'long': (lambda k: 'candidate-%s-%d' % ('xyzw'[k % 4] * (k % 3 + 1), k * 7919), lambda s: int(s.rsplit('-', 1)[1]) // 7919),
-             'person': (person_name, person_unname)}
+             'person': (person_name, person_unname),
+             # candidates numbered from 0: one of the labels is falsy (`if winner:` instead of `if winner is not None:` shows here)
+             'ints0': (lambda k: k - 1, lambda s: s + 1)}
 
 
 def distinct_strengths(pairs):
